@@ -268,7 +268,7 @@ def build_modular(case, inline=False):
     bodies, main, const_decl = modular_texts(case, pr)
     const_decl = list(const_decl) + bound_const_decl(case)
     declared = list(used)
-    if case.get('surplus'):
+    if case.get('surplus') and not case.get('surplus_is_sub'):
         # a variable that is declared (and supplied with data by feed()) although no requirement reads it
         declared.append(case['surplus'])
     if case['declare_names']:
